@@ -10,6 +10,7 @@ HERE = os.path.dirname(os.path.abspath(__file__))
 VERIF = os.path.dirname(HERE)
 SPDRIVER = os.path.join(VERIF, 'lean', '.lake', 'build', 'bin', 'spdriver')
 SCENARIO_TIMEOUT_S = 12
+SCENARIO_RETRY_S = 90
 
 sys.path.insert(0, HERE)
 import scen  # noqa: E402
@@ -29,13 +30,29 @@ def _impl_worker(args):
     def _alarm(signum, frame):
         raise _Timeout()
     signal.signal(signal.SIGALRM, _alarm)
+    confirmed_hang = False
+
+    def _timed(t, budget):
+        signal.setitimer(signal.ITIMER_REAL, budget)
+        try:
+            return impl.run_text(t, cls)
+        finally:
+            signal.setitimer(signal.ITIMER_REAL, 0)
     for t in texts:
         try:
-            signal.setitimer(signal.ITIMER_REAL, SCENARIO_TIMEOUT_S)
             try:
-                res.append(impl.run_text(t, cls))
-            finally:
-                signal.setitimer(signal.ITIMER_REAL, 0)
+                res.append(_timed(t, SCENARIO_TIMEOUT_S))
+            except _Timeout:
+                # a scenario normally takes milliseconds; before calling it a hang, rule out a loaded
+                # machine by one retry with a much larger budget (once a hang is confirmed in this
+                # worker, later time-outs are not retried)
+                if confirmed_hang:
+                    raise
+                try:
+                    res.append(_timed(t, SCENARIO_RETRY_S))
+                except _Timeout:
+                    confirmed_hang = True
+                    raise
         except _Timeout:
             # the implementation did not return (e.g. an endless loop inside one event)
             res.append([t.splitlines()[0] if t else 'scenario ?', 'abort Timeout'])
